@@ -97,7 +97,34 @@ def _roundtrip(text):
     return "capped"
 
 
+@common.guarded("C01")
+def file_roundtrip(text):
+    """the same round trip through the file interface (dump to a file, load the file), every program of a worker
+    through the same path: the file route must give what the string route gives"""
+    s1, p = common.loads(text)
+    if s1 == "exc":
+        return "skip"
+    s2, t = common.dumps(p)
+    if s2 == "exc":
+        return "skip"          # the string route already reports it
+    s3, q = common.loads(t)
+    if s3 == "exc":
+        return "skip"
+    fr = common.file_route(p)
+    if fr[0] == "exc":
+        return ("C01/file-route:%s-raises:%s" % (fr[2], type(fr[1]).__name__), common.exc_sig(fr[1]) + " ;; " + t[-160:])
+    _, qf, ondisk = fr
+    if ondisk != t:
+        return ("C01/file-route:text-on-disk-differs-from-dumps", "dumps %r ;; file %r" % (t[-120:], ondisk[-120:]))
+    d = equiv.prog_equiv(q, qf)
+    if d:
+        return ("C01/file-route:differs:%s" % equiv.classify(d), "; ".join(d)[:300] + " ;; " + t[-160:])
+    return None
+
+
 def _case(sc):
+    if isinstance(sc, tuple) and sc[0] == "file":
+        return file_roundtrip(lang.render(sc[1]))
     return roundtrip(lang.render(sc))
 
 
@@ -156,6 +183,11 @@ def build(ctx):
         add("loop list", script(m0, [("for", "float", "t", ("vals", [N("0.5"), N("2")], "sq"), [st("L", [], [("k", V("t")), ("a", a)])])]))
     for sc in tdm_scripts(shapes):
         add("tdm", sc)
+    # value sweep: floats at and around values a serialiser might prettify or round, in every position
+    for t in A.near_special_floats():
+        for v in (N(t), U("-", N(t))):
+            add("near-special floats", script(m0, [st("G", [v, N("1")], [("k", v), ("l", L(v, N("2")))])]))
+        add("near-special floats", script(dict(name="o", version="1.0", target=("g", [], [("o", N(t))]), type=("t", [], [("l", L(N(t)))])), [st("G", [B("*", N(t), P("a"))], [])]))
     if not ctx.quick:
         for a, b, c in itertools.product(shapes[::2], repeat=3):
             add("3 arguments", script(m0, [st("G", [a, b], [("k", c)], [N("0"), N("1")], "sq")]))
@@ -164,10 +196,21 @@ def build(ctx):
                 add("options x 2 args", script(meta, [st("G", [a], [("k", b)])]))
         for a, b in pairs[::2]:
             add("3 statements", script(m0, [st("G", [a], []), st("MeasureX", None, [], [N("0")]), st("H", [b], [("k", a)], [N("1")])]))
+    # the file route (dump to a file / load the file), one working file per worker: every single-argument script
+    for sc in list(scripts):
+        if fam and len(sc["items"]) and sc.get("name") in (metas[0]["name"], metas[1]["name"], "t1", "o") and sum(1 for it in sc["items"] if it[0] == "stmt") == 1 \
+                and len(sc["items"][-1][2] or []) + len(sc["items"][-1][3] or []) <= (1 if sc.get("name") != "o" else 3):
+            scripts.append(("file", sc))
+            fam["file route"] += 1
     return scripts, fam
 
 
+def _text(sc):
+    return lang.render(sc[1]) if isinstance(sc, tuple) else lang.render(sc)
+
+
 def run(ctx):
+    common.SCRATCH = ctx.scratch
     scripts, fam = build(ctx)
     scripts = common.shard(scripts, ctx.seed)
     res = pool.pmap(_case, scripts, chunk=50)
@@ -178,25 +221,25 @@ def run(ctx):
         if r == "skip":
             stats["script_does_not_load_skipped"] += 1
             continue
-        distinct.add(lang.render(sc))
+        distinct.add(("file:" if isinstance(sc, tuple) else "") + _text(sc))
         if r is None:
             stats["round_trip_ok"] += 1
         elif r == "capped":
             stats["no_text_fixpoint_within_cap"] += 1
         elif r == "TIMEOUT":
-            Vs.add("C01/no-outcome", {"text": lang.render(sc)}, "timeout")
+            Vs.add("C01/no-outcome", {"text": _text(sc)}, "timeout")
         else:
-            Vs.add(r[0], {"text": lang.render(sc)}, r[1])
+            Vs.add(r[0], {"text": _text(sc), "route": "file" if isinstance(sc, tuple) else "string"}, r[1])
     cov = {"evaluations": len(scripts), "distinct_nontrivial": len(distinct),
            "rule": "valid scripts from the shared alphabet (%d argument shapes incl. every print form of ints/floats/complex, booleans, strings, variables, array elements, arrays, parameter expressions over overlapping and look-alike names, register expressions; "
                    "%d list-valued keyword shapes; %d mode forms; %d metadata variants): every single argument x metadata, every ordered pair as 2 positional / positional+keyword / 2 keywords / 2 statements, lists x shapes, list pairs, mode forms x shapes, "
-                   "loops, tdm programs with p-arrays; thorough adds triples, options x pairs and 3-statement scripts. Each is loaded, serialised and re-loaded until the text repeats (cap %d generations). "
-                   "non-trivial = script loads and has >= 1 operation with an argument; distinct by rendered text" % (len(A.ARG_SHAPES), len(A.KW_LISTS) + len(A.KW_LISTS_T), len(A.MODE_FORMS), len(A.METAS), GEN_CAP),
-           "samples": [lang.render(s) for s in common.sample(scripts, 4)], "exhaustive": True, "by_family": dict(fam), **dict(stats)}
+                   "loops, tdm programs with p-arrays, %d floats at and around pi multiples / e / 1 / 1/3 / sqrt 2 / powers of ten in every position, and every single-argument script also through the file interface (dump to / load from one working file per worker); thorough adds triples, options x pairs and 3-statement scripts. Each is loaded, serialised and re-loaded until the text repeats (cap %d generations). "
+                   "non-trivial = script loads and has >= 1 operation with an argument; distinct by rendered text" % (len(A.ARG_SHAPES), len(A.KW_LISTS) + len(A.KW_LISTS_T), len(A.MODE_FORMS), len(A.METAS), len(A.near_special_floats()), GEN_CAP),
+           "samples": [_text(s) for s in common.sample(scripts, 4)], "exhaustive": True, "by_family": dict(fam), **dict(stats)}
     return {"coverage": cov, "violations": Vs.records(),
             "assumptions": ["numbers/booleans/strings/lists/arrays compared exactly and kind-aware; symbolic arguments by evaluation at 3 points to 1e-9", "variables of non-tdm programs and whether an argument-less operation has an args key are not compared"]}
 
 
 def replay(case):
-    r = roundtrip(case["text"])
+    r = file_roundtrip(case["text"]) if case.get("route") == "file" else roundtrip(case["text"])
     return (r not in (None, "skip", "capped")), repr(r)[:400]
